@@ -62,7 +62,7 @@ def site_of(exc, pkgdir):
 def norm_site(s):
     return s.split('.')[-1].split('(')[0]
 
-def run(bashlex, entry, s, timeout=5, **opts):
+def run(bashlex, entry, s, timeout=60, **opts):
     """run an entry point, return the canonical outcome line"""
     import os
     pkgdir = os.path.dirname(bashlex.__file__)
